@@ -202,7 +202,13 @@ def applyTok (d : DSt) (tok : String) : DSt × String :=
       match act d (.redeployLive (natOr n)) with
       | some (d', _) =>
         let cs := joinWith "." ((List.range d.nsplits).map fun sp => toString (d'.s.cursor sp))
-        ({ d' with live := true }, s!"L:{n}:{ck}:{cs}:{j}")
+        -- the model's `redeployLive` has no job flag (the region is excluded from the theorems anyway): when the job
+        -- process was replaced too, its checkpoint counter restarts behind the newest published checkpoint and its
+        -- publications in flight are gone, exactly as in `restore … true`
+        let s' := if j == "j" then
+            { d'.s with writing := [], nextId := match newest d.s.published with | some c => c.id + 1 | none => 1 }
+          else d'.s
+        ({ d' with s := s', live := true }, s!"L:{n}:{ck}:{cs}:{j}")
       | none => bad "redeploy"
     | ["x", w] =>
       match act d (.kill (natOr w)) with
